@@ -95,10 +95,6 @@ func knownShape(args []string, want interface{}, st *model.Store, pre preState, 
 	switch name {
 	case "decr", "decrby":
 		return "decr-documented-but-not-registered"
-	case "getrange":
-		if b, ok := want.([]byte); ok && len(b) == 0 {
-			return "getrange-empty-result-is-nil"
-		}
 	case "srandmember":
 		if len(a) == 1 {
 			return "srandmember-without-count-returns-array"
@@ -115,9 +111,6 @@ func knownShape(args []string, want interface{}, st *model.Store, pre preState, 
 			return "setrange-extra-arguments-ignored"
 		}
 	case "incr", "incrby", "hincrby":
-		if isErr(want, "overflow") {
-			return "incr-overflow-wraps-around"
-		}
 		if isErr(want, "not int") && st != nil {
 			// the stored value and the increment are integers for Go's ParseInt
 			cur, inc := "0", "1"
@@ -154,9 +147,6 @@ func knownShape(args []string, want interface{}, st *model.Store, pre preState, 
 			if _, bad := want.(model.Err); !bad && (scoreInf(lo) > 0 || scoreInf(hi) < 0) {
 				return "score-range-with-inf-on-the-far-side-is-an-error"
 			}
-			if _, bad := want.(model.Err); !bad && (strings.HasPrefix(lo, "(") || strings.HasPrefix(hi, "(")) {
-				return "score-range-exclusive-bound-is-bound-plus-minus-one"
-			}
 		}
 	case "zrangebylex", "zlexcount", "zremrangebylex":
 		if len(a) >= 3 {
@@ -180,15 +170,8 @@ func knownShape(args []string, want interface{}, st *model.Store, pre preState, 
 // contains a 0x00 byte).
 func known13(sp scanSpec, rule string, pages int, engine string, nul bool) string {
 	switch {
-	case sp.cmd == "scan" && pages >= 2:
-		// the plain SCAN command returns table:key as the partition cursor and
-		// the server prepends the table again on the next call, so every page
-		// after the first starts at the wrong place
-		return "scan-cursor-carries-the-table-twice"
-	case sp.keyScan() && sp.rev && sp.count == 0:
-		// without COUNT the merge code writes the per-partition count over the
-		// command name, the partition no longer sees "advrevscan"/"revscan"
-		return "merged-reverse-scan-without-count-returns-nothing"
+	// (the doubled table in the cursor of plain SCAN and the merged reverse scan
+	// without COUNT were recorded deviations; repaired in /repo (f29eaef, dab5341))
 	case strings.Contains(sp.match, "\x00") || (sp.match != "" && sp.qualified && strings.Contains(sp.table, "\x00")):
 		// the glob library ends the pattern at a 0x00 byte
 		return "glob-pattern-cut-at-nul-byte"
